@@ -317,6 +317,9 @@ enum HEv {
     ConnectAbort,
     /// a UDP datagram that is not a request (zero-length / a short probe)
     Junk,
+    /// a health-check connection whose peer closes its sending side right away (`nc host port
+    /// </dev/null`, shutdown(SHUT_WR)) and waits for the answer: it is owed the response like any other
+    ConnectHalfClose,
 }
 
 fn health_history(h: &[HEv]) -> Result<Option<(String, String)>, String> {
@@ -343,6 +346,13 @@ fn health_history_bs(h: &[HEv], batch_size: u8) -> Result<Option<(String, String
                         libc::setsockopt(s.as_raw_fd(), libc::SOL_SOCKET, libc::SO_LINGER, &lg as *const _ as *const libc::c_void, std::mem::size_of::<libc::linger>() as libc::socklen_t);
                     }
                     drop(s); // close() with linger 0 sends RST
+                }
+                Err(e) => return Ok(Some(("health-connect-refused".into(), format!("event {}: {}", k, e)))),
+            },
+            HEv::ConnectHalfClose => match crate::util::tcp_connect(&haddr, Duration::from_secs(2)) {
+                Ok(s) => {
+                    let _ = s.shutdown(std::net::Shutdown::Write);
+                    conns.push(s);
                 }
                 Err(e) => return Ok(Some(("health-connect-refused".into(), format!("event {}: {}", k, e)))),
             },
@@ -399,7 +409,7 @@ fn health_history_bs(h: &[HEv], batch_size: u8) -> Result<Option<(String, String
     }
     for i in 0..conns.len() {
         if got[i] != HTTP_RESPONSE.as_bytes() || !eof[i] {
-            return Ok(Some(("health-connection-not-served".into(), format!("connection #{} of {}: got {} bytes, closed={} after {} idle iterations of the event loop", i, h.iter().filter(|e| **e == HEv::Connect).count(), got[i].len(), eof[i], rounds))));
+            return Ok(Some(("health-connection-not-served".into(), format!("connection #{} of {}: got {} bytes, closed={} after {} idle iterations of the event loop", i, h.iter().filter(|e| **e == HEv::Connect || **e == HEv::ConnectHalfClose).count(), got[i].len(), eof[i], rounds))));
         }
     }
     for (c, req) in &udp {
@@ -532,6 +542,32 @@ pub fn run(ctx: &Ctx) -> Result<(), String> {
             }
         });
     }
+    // half-closed connections: all sequences of length <= 4 over {half-closed connect, connect, send, step}
+    {
+        let al = [HEv::ConnectHalfClose, HEv::Connect, HEv::Send, HEv::Step];
+        let mut hs = vec![];
+        for l in 1..=4usize {
+            for mut idx in 0..4usize.pow(l as u32) {
+                let mut h = vec![];
+                for _ in 0..l {
+                    h.push(al[idx % 4]);
+                    idx /= 4;
+                }
+                if h.contains(&HEv::ConnectHalfClose) {
+                    hs.push(h);
+                }
+            }
+        }
+        par_for(hs.len(), 4, |k, _| {
+            hist_n.fetch_add(1, Relaxed);
+            transitions.fetch_add(hs[k].len() as u64 + 3, Relaxed);
+            match health_history_bs(&hs[k], 64) {
+                Err(e) => *failed.lock().unwrap() = Some(e),
+                Ok(None) => {}
+                Ok(Some((clause, msg))) => ctx.violation(&clause, "handle_health_check", "half-closed-connection", json!({"kind":"health-history","events":hs[k].iter().map(|e| format!("{:?}", e)).collect::<Vec<_>>(),"message":msg})),
+            }
+        });
+    }
     // connection bursts: k connections pending when the worker handles the event (k around any
     // plausible per-event bound), alone and mixed with time requests
     {
@@ -625,7 +661,7 @@ pub fn replay_case(c: &Value) -> Result<Option<String>, String> {
         Some("schedule") => crate::sched::replay_schedule(c),
         Some("health-history") => {
             crate::inproc::init();
-            let h: Vec<HEv> = c["events"].as_array().ok_or("events")?.iter().map(|e| match e.as_str() { Some("Connect") => HEv::Connect, Some("Send") => HEv::Send, Some("ConnectAbort") => HEv::ConnectAbort, Some("Junk") => HEv::Junk, _ => HEv::Step }).collect();
+            let h: Vec<HEv> = c["events"].as_array().ok_or("events")?.iter().map(|e| match e.as_str() { Some("Connect") => HEv::Connect, Some("Send") => HEv::Send, Some("ConnectAbort") => HEv::ConnectAbort, Some("ConnectHalfClose") => HEv::ConnectHalfClose, Some("Junk") => HEv::Junk, _ => HEv::Step }).collect();
             let bs = if h.iter().any(|e| *e == HEv::Junk) { 1 } else { 64 };
             let r = crate::util::on_named_thread("worker-0", move || health_history_bs(&h, bs))?;
             Ok(r.map(|(a, b)| format!("{} {}", a, b)))
